@@ -315,6 +315,10 @@ def run(ctx):
         check_pair(ctx, c, order=['C', 'F', None][j % 3])
         if c['cores1'] == c['cores2'] or j % 7 == 0:
             check_unary(ctx, c, cores_of(c['cores1']), 'pair')
+        if j % 7 == 3:
+            # the observers read the cores only: integer-typed cores denote the same tensor (the binary routines scale copies
+            # in place and are defined for floating cores only, so they are not lifted)
+            check_unary(ctx, c, cores_of(c['cores1'], dtype=[np.int64, np.int32][(j // 7) % 2]), 'pair-int')
         ctx.case(key=('pair', c['cores1'], c['cores2']), nontrivial=max(c['ranks1'] + c['ranks2']) >= 2,
                  sample={'n': c['n'], 'ranks1': c['ranks1'], 'ranks2': c['ranks2'], 'dot': c['dot']} if j < 2 else None)
     num = 12 if quick else 120
